@@ -75,12 +75,14 @@ def run_case(case):
     import dendropy
     doc, fmt, opts, shared = case["doc"], case["fmt"], case["opts"], case["shared"]
     grid = case.get("grid", "full")
-    text = x_c13.RENDER[fmt](doc)
+    text = x_c13.RENDER[case.get("render", fmt)](doc)
     path = os.path.join(case["tmp"], "c13_%d_%s.txt" % (os.getpid(), case["key"]))
     with open(path, "w") as f:
         f.write(text)
     try:
-        return [_routes(dendropy, doc, fmt, opts, shared, grid, text, path)]
+        ev = _routes(dendropy, doc, fmt, opts, shared, grid, text, path, case.get("pairs", []))
+        ev["render"] = case.get("render", fmt)
+        return [ev]
     finally:
         try:
             os.remove(path)
@@ -88,7 +90,7 @@ def run_case(case):
             pass
 
 
-def _routes(dendropy, doc, fmt, opts, shared, grid, text, path):
+def _routes(dendropy, doc, fmt, opts, shared, grid, text, path, pair_routes=()):
     kw = dict(opts)
     pool = x_c13.Pool(core.dumps)
     mpool = x_c13.Pool(core.dumps)
@@ -121,7 +123,7 @@ def _routes(dendropy, doc, fmt, opts, shared, grid, text, path):
 
     ev = {"action": "Routes", "fmt": fmt, "shared": shared, "doc": doc, "opts": opts, "grid": grid,
           "pool": pool.items, "ref": {"raised": "", "alt": "", "colls": []}, "calls": [], "arrays": [],
-          "mpool": mpool.items, "mref": [], "mcalls": []}
+          "mpool": mpool.items, "mref": [], "mcalls": [], "pairs": []}
 
     # ---- reference: the data-set route
     def ds_views(ds):
@@ -162,6 +164,34 @@ def _routes(dendropy, doc, fmt, opts, shared, grid, text, path):
     r, _ = _outcome(lambda: d3.read(data=text, schema=fmt, **dict(nskw, **kw)))
     c3 = ds_views(d3)[0] if not r else []
     add_call("DataSetRead", NOOFF, NOOFF, "data", r, [i for c in c3 for i in c], lens=[len(c) for c in c3])
+
+    # ---- two consecutive reads of the same text into ONE fresh namespace: first by route A, then by route B
+    # (all trees of the source each time); the judge requires identical taxon objects (SameTaxaWhenShared)
+    def read_all(route, tns, codes):
+        nk = {"taxon_namespace": tns}
+        if route == "TreeListGet":
+            return [pool.add(x_c13.tree_view(t, codes)) for t in dendropy.TreeList.get(data=text, schema=fmt, **dict(nk, **kw))]
+        if route == "DataSetGet":
+            d = dendropy.DataSet.get(data=text, schema=fmt, **dict(nk, **kw))
+            return [pool.add(x_c13.tree_view(t, codes)) for tl in d.tree_lists for t in tl]
+        if route == "YieldFromFiles":
+            return [pool.add(x_c13.tree_view(t, codes)) for t in dendropy.Tree.yield_from_files(files=[io.StringIO(text)], schema=fmt, **dict(nk, **kw))]
+        if route == "TreeListRead":
+            tl = dendropy.TreeList(taxon_namespace=tns)
+            tl.read(data=text, schema=fmt, **kw)
+            return [pool.add(x_c13.tree_view(t, codes)) for t in tl]
+        raise ValueError(route)
+    PAIR_B = ("TreeListGet", "DataSetGet", "YieldFromFiles", "TreeListRead")
+    for ra in pair_routes:
+        tns = dendropy.TaxonNamespace(is_case_sensitive=bool(opts.get("case_sensitive_taxon_labels", False)))
+        pcodes = proj.TaxonCodes(tns)
+        r, ia = _outcome(lambda: read_all(ra, tns, pcodes))
+        if r:
+            ev["pairs"].append({"a": ra, "b": "", "raised": "first-" + r, "ia": [], "ib": []})
+            continue
+        for rb in PAIR_B:
+            r, ib = _outcome(lambda: read_all(rb, tns, pcodes))
+            ev["pairs"].append({"a": ra, "b": rb, "raised": r, "ia": ia, "ib": ib or []})
 
     nb = len([b for b in doc["blocks"] if b["kind"] == "trees"])
     ms = max([len(b["stmts"]) for b in doc["blocks"] if b["kind"] == "trees"] + [0])
@@ -289,20 +319,25 @@ def _routes(dendropy, doc, fmt, opts, shared, grid, text, path):
 
 def _cases_for(doc, k, tmp, seed, kind, quick):
     cases = []
-    for fmt in x_c13.formats_of(doc):
+    PA = ("TreeListGet", "DataSetGet", "YieldFromFiles", "TreeListRead")
+    for render in x_c13.formats_of(doc):
+        fmt = x_c13.SCHEMA[render]
         osets = optsets(fmt)
         rot = osets[1 + (k + seed) % (len(osets) - 1)]
-        base = {"doc": doc, "fmt": fmt, "tmp": tmp, "kind": kind}
-        cases.append(dict(base, opts={}, shared=True, grid="full" if kind == "model" else "edge", key="%d_%s_a" % (k, fmt)))
+        base = {"doc": doc, "fmt": fmt, "render": render, "tmp": tmp, "kind": kind}
+        # two-read pairs: every first route for the NeXML renderings, one rotating first route for the text schemas
+        pairs = list(PA) if fmt == "nexml" else [PA[k % len(PA)]]
+        cases.append(dict(base, opts={}, shared=True, grid="full" if kind == "model" else "edge", pairs=pairs, key="%d_%s_a" % (k, render)))
         if quick and k % 2 == 0:
-            cases.append(dict(base, opts=rot, shared=True, grid="light", key="%d_%s_b" % (k, fmt)))
+            cases.append(dict(base, opts=rot, shared=True, grid="light", key="%d_%s_b" % (k, render)))
         if not quick:
-            cases.append(dict(base, opts=rot, shared=True, grid="edge", key="%d_%s_b" % (k, fmt)))
+            cases.append(dict(base, opts=rot, shared=True, grid="edge", pairs=[PA[(k + 1) % len(PA)]], key="%d_%s_b" % (k, render)))
         # separate namespaces: a case-sensitive read needs a case-sensitive namespace supplied by the caller (documented
-        # ValueError otherwise), so that option is only used in the shared-namespace cases
-        if not quick or k % 2 == 1:
+        # ValueError otherwise), so that option is only used in the shared-namespace cases.  Not for "nexml2": a data set
+        # keeps one namespace per <otus> block (documented), a tree list has one namespace - no common taxa to compare.
+        if render != "nexml2" and (not quick or k % 2 == 1):
             own = {} if k % 4 < 2 else {o: v for o, v in rot.items() if o != "case_sensitive_taxon_labels"}
-            cases.append(dict(base, opts=own, shared=False, grid="light" if quick else "edge", key="%d_%s_c" % (k, fmt)))
+            cases.append(dict(base, opts=own, shared=False, grid="light" if quick else "edge", key="%d_%s_c" % (k, render)))
     return cases
 
 
@@ -353,8 +388,10 @@ def run(ctx):
     psize, cpos = (3, "{1}") if ctx.quick else (5, "{0,1,2}")
     ctx.rule = ("every document of TLC's dump of MC_ReadRoutes (%d documents: <= 2 TREES blocks x 0..2 statements from the first %d statement "
                 "variants, each block with/without TRANSLATE, CHARACTERS blocks of different data types (STANDARD, DNA, DNA + SETS) at position %s) x every schema it can be written in "
-                "(NEXUS always; Newick: one block without TRANSLATE; NeXML: no TRANSLATE, no labels differing by case only) x "
-                "[a] shared namespace, default options, every (collection_offset, tree_offset) in (None, -(n+1)..n)^2; "
+                "(NEXUS always; Newick: one block without TRANSLATE; NeXML: no TRANSLATE, no labels differing by case only inside one <otus>; "
+                "NeXML also with one <otus> block per TREES block sharing labels) x "
+                "[a] shared namespace, default options, every (collection_offset, tree_offset) in (None, -(n+1)..n)^2, and two consecutive reads "
+                "into one fresh namespace (first route A, then each route B); "
                 "[b] shared namespace, one rotating option set; [c] separate namespaces (quick tier: b and c alternate over the documents) "
                 "= %d cases; + %d seeded random documents (1-4 TREES blocks, 0-5 statements, 3-8 leaves, 0-2 CHARACTERS blocks) x the same = %d cases; "
                 "one case = one source text read through every route (TreeList.get, Tree.get, TreeList.read, Tree.yield_from_files, "
